@@ -51,4 +51,9 @@ META = {
         text="Exploration: generated delegate / undelegate / redelegate / withdraw / approve / transfer / transferFrom histories (self-transfers, partial and off-by-one amounts) interleaved with real reward allocation and slashing; shares move exactly, validators are untouched by transfers, rewards are paid, delegations sum to validator shares, the SDK's staking / distribution / bank / gov invariants hold at every step and everybody can exit at the end.",
         note="Reward allocation and slashing are the SDK keepers' own functions called at message level.",
     ),
+    "C07": dict(
+        technique="stateful property-based testing (rapid-generated histories) on a fresh real chain per case with real FinalizeBlock/Commit per block step; crash oracle (error or panic of block processing)",
+        text="Exploration: hundreds of generated histories of bridge traffic with per-oracle confirmation choices, governance proposals of ten shapes (including failing and panicking messages), oracle-list changes and large time jumps drive thousands of real blocks through every begin/end blocker; tiny governance-set signed windows make aged-unconfirmed oracle sets, batches and bridge calls reachable within a few blocks.",
+        note="Probabilistic by nature: evidence reports how many blocks ran with aged unconfirmed objects of each kind and how many proposals ended in each status.",
+    ),
 }
